@@ -60,6 +60,7 @@ THEMES={
  9: "Assume the verification suite you are up against drives the node through simulated CAN / timer / NVM drivers, has a reference model for this property, generates long random operation sequences, runs with memory sanitizers, varies timer-pool sizes, issues API calls from inside callbacks, injects driver faults and builds unusual dictionary shapes. Think about what it would STILL most naturally miss: legal but extreme parameter values (times of 65535 ms, identifiers 7FFh or 001h, node id 127, sub-index 255, exactly 8 mapped entries, a counter that wraps after 255 or 65535 events), an effect that becomes visible only MANY operations after its cause, a value that is written through one path (SDO / API / PDO / NVM load) and read back through another, or two legal operations separated by exactly zero ticks - and seed a regression whose ONLY symptom lies there",
  10: "Assume the verification suite you are up against drives the node through simulated CAN / timer / NVM drivers, has a reference model for this property, generates long random operation sequences (including bursts of several hundred frames, tick counts near 2^31, transfers beyond 64 KiB), runs with memory sanitizers, varies timer-pool sizes, issues API calls from inside callbacks and injects driver faults. Think about what it would STILL most naturally miss: a PAIR of configuration options nobody combines (a feature enabled together with another that is usually off; the last legal value of one parameter with the first of another), a public API function or macro of the library that is documented but rarely called (look through the headers for the ones the tests never use), the behaviour of the SECOND call of something that is normally called once (a second CONodeInit / CONodeStart / COxxxInit, a repeated identical write, a repeated identical request), or a data-dependent path (a payload byte pattern, a value with the top bit set, a signed object holding a negative value, a string containing a NUL) - and seed a regression whose ONLY symptom lies there",
  11: "Assume the verification suite you are up against drives the node through simulated CAN / timer / NVM drivers, has a reference model for this property, generates long random operation sequences (bursts of hundreds of frames, tick counts near 2^31, transfers beyond 64 KiB, dictionaries spanning the whole index range), runs with memory sanitizers, varies timer-pool sizes, issues API calls from inside callbacks, injects driver faults, initialises a node a second time on the same memory, changes the node id through LSS, activates LSS bit timing and changes the NMT state while other services are busy. Think about what it would STILL most naturally miss: behaviour that depends on WHICH optional objects or sub-indices are absent or in which order entries sit in the dictionary; a chain of three or more dependent steps (configure A, then B which depends on A, then undo or repeat A); an error path whose only effect is a wrong return value, a wrong node error code (CONodeGetErr) or a wrong abort code on a request that is refused anyway; arithmetic at type boundaries inside the object types and services (values with the top bit set, FFFFFFFFh, value plus node id overflowing, signed against unsigned comparison); or the second and later instances of something the library keeps in arrays (TPDO/RPDO number 3, the last EMCY table row, the last heartbeat consumer, the second SDO client) - and seed a regression whose ONLY symptom lies there",
+ 12: "Assume the verification suite you are up against drives the node through simulated CAN / timer / NVM drivers, has a reference model for this property, generates long random operation sequences (bursts of hundreds of frames, tick counts near 2^31, transfers beyond 64 KiB, dictionaries spanning the whole index range, identifiers and values at the edges of their ranges), runs with memory sanitizers, varies timer-pool sizes, issues API calls from inside callbacks, injects driver faults, initialises a node a second time on the same memory, changes the node id through LSS, activates LSS bit timing, changes the NMT state or resets the node while other services are busy, and builds with two SDO servers and clients. This time do NOT touch the files listed as relevant for the property: seed the regression in a SHARED layer that this property merely depends on - the hardware abstraction (src/hal/co_if*.c), the frame dispatch and node life cycle (src/core/co_core.c), the object access layer (src/core/co_obj.c, src/core/co_dict.c), a basic object type (src/object/basic/*.c), a macro or struct in a header (src/core/*.h, src/config/*.h), or another service whose state this one reads - ideally as TWO cooperating edits in different files that each look fine alone, so that the property breaks only for a specific combination of circumstances",
 }
 def main():
     rnd=int(sys.argv[1]); ids=sys.argv[2:] or sorted(props)
